@@ -11,15 +11,19 @@ import sys
 
 ROOT = os.path.dirname(os.path.dirname(os.path.abspath(__file__)))
 sys.path.insert(0, os.path.join(ROOT, "tools"))
-from seeded_meta import SEEDS, REVERTS  # noqa: E402
+from seeded_meta import SEEDS, SEEDS2, REVERTS  # noqa: E402
 
-WT = "/tmp/wt"
 OUT = os.path.join(ROOT, "seeded")
 os.makedirs(OUT, exist_ok=True)
-for key, m in sorted(SEEDS.items()):
-    pid, n = key.split("-")
+ALL = [(k, m, "/tmp/wt", k.split("-")[0], k.split("-")[1]) for k, m in SEEDS.items()]
+ALL += [(k, m, "/tmp/wt2", m["src"][0], str(m["src"][1])) for k, m in SEEDS2.items()]
+for key, m, WT, pid, n in sorted(ALL):
     src = os.path.join(WT, pid, "_seed")
-    conf = os.path.join(WT, "confirm", key + ".txt")
+    conf = os.path.join(WT, "confirm", "%s-%s.txt" % (pid, n))
+    if not os.path.isdir(src):
+        if not os.path.exists(os.path.join(OUT, key, "patch.diff")):
+            print("no source for", key)
+        continue   # collected earlier, scratch worktree already removed
     if not os.path.exists(conf):
         print("no confirmation for", key)
         continue
@@ -49,7 +53,9 @@ for key, m in sorted(SEEDS.items()):
     old = json.load(open(meta_path)) if os.path.exists(meta_path) else {}
     meta = {
         "id": key, "property": pid, "origin": "independent sub-agent given only "
-        "the property text and a scratch worktree",
+        "the property text and a scratch worktree" + (
+            "" if WT == "/tmp/wt" else " (second round: asked for changes a "
+            "property-based campaign over orders 0..4 would miss)"),
         "site": m["site"], "change": m["what"], "needs_to_manifest": m["needs"],
         "confirmed": {
             "tree": "scratch worktree of /repo at " + (base.group(1) if base else "?"),
@@ -62,6 +68,7 @@ for key, m in sorted(SEEDS.items()):
         "detected_by": old.get("detected_by", {}),
     }
     json.dump(meta, open(meta_path, "w"), indent=1)
+    shutil.copy(conf, os.path.join(d, "confirm_log.txt"))
     print("kept", key)
 
 for key, m in sorted(REVERTS.items()):
